@@ -284,6 +284,8 @@ def gen_retry(seed: int, kn: dict | None = None) -> dict:
         # another consumer sharing the budget takes a token exactly while the strategy is being evaluated
         for c in calls:
             c["ext_consume"] = sorted(r.sample(range(0, 4), r.randint(1, 2)))
+    if place["sleeper"] != "none" and r.random() < kn.get("p_sized_sleeper", 0.08):
+        place["sleeper_shape"] = "sized"
     if r.random() < kn.get("p_sized_strategy", 0.08):
         cfg["strat_shape"] = "sized"
     if place["handler"] != "none" and kn.get("p_slow_handler") and r.random() < kn["p_slow_handler"]:
